@@ -37,16 +37,26 @@ def store_guard(W, ob, method, field, expect, desc, exact_len=None):
     return errs
 
 
+def unsigned_range(g, keystr, lo, hi):
+    """the guard is exactly `lo <= key <= hi` for an unsigned `key` (hi may be None), whatever way it is spelled"""
+    from .sem import conj_simplify, conj_implies_atom
+    if len(g) != 1:
+        return False
+    vec = ((keystr, 1),)
+    c = conj_simplify(list(g[0]) + [('lin', vec, 0, None)])
+    if c is None:
+        return False
+    rest = [a for a in c if not (a[0] in ('lin', 'ne') and a[1] == vec)]
+    mine = [a for a in c if a[0] == 'lin' and a[1] == vec]
+    return not rest and len(mine) == 1 and mine[0][2] == lo and mine[0][3] == hi and not [a for a in c if a[0] == 'ne']
+
+
 def o1(W, ob):
     buf = W.const('SPECTATOR_BUFFER_SIZE')
-    store_guard(W, ob, 'with_fps', 'fps', lambda g: every_disjunct_has(g, lambda a: match_lin(a, [(exact('arg2'), 1)], neq=0) or match_lin(a, [(exact('arg2'), 1)], lo=1)),
-                'accepts exactly fps != 0', exact_len=1)
-    store_guard(W, ob, 'with_max_frames_behind', 'max_frames_behind',
-                lambda g: every_disjunct_has(g, lambda a: a[0] == 'lin' and dict(a[1]) == {'arg2': 1} and a[2] == 1 and a[3] == buf - 1),
-                'accepts exactly 1 <= max_frames_behind < SPECTATOR_BUFFER_SIZE (%d)' % buf, exact_len=1)
-    store_guard(W, ob, 'with_catchup_speed', 'catchup_speed',
-                lambda g: every_disjunct_has(g, lambda a: a[0] == 'lin' and dict(a[1]) == {'arg2': 1} and a[2] == 1 and a[3] is None),
-                'accepts exactly catchup_speed >= 1', exact_len=1)
+    store_guard(W, ob, 'with_fps', 'fps', lambda g: unsigned_range(g, 'arg2', 1, None), 'accepts exactly fps != 0')
+    store_guard(W, ob, 'with_max_frames_behind', 'max_frames_behind', lambda g: unsigned_range(g, 'arg2', 1, buf - 1),
+                'accepts exactly 1 <= max_frames_behind < SPECTATOR_BUFFER_SIZE (%d)' % buf)
+    store_guard(W, ob, 'with_catchup_speed', 'catchup_speed', lambda g: unsigned_range(g, 'arg2', 1, None), 'accepts exactly catchup_speed >= 1')
     # unconstrained setters
     for m, fld in (('with_max_prediction_window', 'max_prediction'), ('with_input_delay', 'input_delay'), ('with_sparse_saving_mode', 'sparse_saving'),
                    ('with_desync_detection_mode', 'desync_detection'), ('with_disconnect_timeout', 'disconnect_timeout'),
